@@ -5,6 +5,7 @@ package rawconfigtrafficcontroller
 import (
 	"fmt"
 	"math/rand"
+	"os"
 	"sort"
 	"strings"
 	"testing"
@@ -71,6 +72,14 @@ func (b c20Block) String() string {
 		al[i] = c20StateOf(c).String()
 	}
 	return fmt.Sprintf("%d name(s) x states {%s} x exactly %d snapshot(s) = %d sequences", b.Names, strings.Join(al, ","), b.Len, b.size())
+}
+
+// c20ReplayOfAnotherPart: ./check --replay sets VERIF_ONLY=<part>:<case> for every part;
+// the parts it does not name have nothing to do.
+func c20ReplayOfAnotherPart(t *testing.T) bool {
+	v := os.Getenv("VERIF_ONLY")
+	i := strings.LastIndex(v, ":")
+	return v != "" && i >= 0 && v[:i] != t.Name()
 }
 
 // c20Stuck is set when a barrier watchdog fired: the remaining cases of the process are
@@ -195,6 +204,9 @@ func c20RequireAll(r *kit.Run) {
 
 // TestVerif_C20_Exhaustive enumerates finite spaces of snapshot sequences completely.
 func TestVerif_C20_TC_Exhaustive(t *testing.T) {
+	if c20ReplayOfAnotherPart(t) {
+		t.Skip("replaying a case of another part")
+	}
 	r := kit.Start(t, "C20")
 	defer r.Finish()
 	blocks := []c20Block{
@@ -279,6 +291,9 @@ func c20RandomSeq(rng *rand.Rand, length int) []c20Snapshot {
 
 // TestVerif_C20_Sampled: seeded sequences of 4..8 snapshots over all 3 names.
 func TestVerif_C20_TC_Sampled(t *testing.T) {
+	if c20ReplayOfAnotherPart(t) {
+		t.Skip("replaying a case of another part")
+	}
 	r := kit.Start(t, "C20")
 	defer r.Finish()
 	r.Rule("seeded random sequences of 4..8 snapshots over 3 names x (absent | Pipeline, gate A, gate B x 3 variants), biased towards unchanged / variant change / kind change of live names; same oracle as the enumerated part")
@@ -300,6 +315,9 @@ func TestVerif_C20_TC_Sampled(t *testing.T) {
 
 // TestVerif_C20_Panics: scripted panics in Init / Inherit / Close.
 func TestVerif_C20_TC_Panics(t *testing.T) {
+	if c20ReplayOfAnotherPart(t) {
+		t.Skip("replaying a case of another part")
+	}
 	r := kit.Start(t, "C20")
 	defer r.Finish()
 	block := c20Block{2, c20Mid, 2}
